@@ -10,7 +10,9 @@ lists).  For ALL duplicate-free lists `a`, `b` over any type with decidable equa
 * `merge_nodup`    — no element is emitted twice (the shared names are emitted once);
 * `merge_length`   — `|result| + |a ∩ b| = |a| + |b|`;
 * `merge_disjoint` — without shared elements the result is `a ++ b`;
-* `merge_nil_left` / `merge_nil_right` — the empty list is a unit.
+* `merge_nil_left` / `merge_nil_right` — the empty list is a unit;
+* `merge_order_left` / `merge_order_right` — (ALL lists, duplicates included) the elements only
+  one of the lists has keep the relative order they have in that list.
 
 The proofs are by induction along the two-iterator loop with the invariant `Inv` below (every
 element still in `overlap` is still ahead in BOTH iterators; every element ahead in both
@@ -188,6 +190,61 @@ theorem merge_nil_left (b : List α) : mergeListsWOrdering [] b = b :=
 
 theorem merge_nil_right (a : List α) : mergeListsWOrdering a [] = a :=
   by simpa using merge_disjoint a ([] : List α) (by simp)
+
+/-- filtering the loop result by a predicate that is false on the overlap set and on one of the
+two iterators gives the emitted prefix followed by the other iterator, both filtered — whichever
+iterator is currently being read (the two conjuncts swap at every iterator switch) -/
+theorem go_filter (p : α → Bool) : ∀ (n : Nat) (cur oth ov res : List α),
+    cur.length + oth.length = n → (∀ x, x ∈ ov → p x = false) →
+    ((∀ x, x ∈ oth → p x = false) →
+      (go cur oth ov res).filter p = res.filter p ++ cur.filter p) ∧
+    ((∀ x, x ∈ cur → p x = false) →
+      (go cur oth ov res).filter p = res.filter p ++ oth.filter p) := by
+  intro n
+  induction n using Nat.strongRecOn with
+  | _ n ih =>
+    intro cur oth ov res hn hov
+    cases cur with
+    | nil =>
+      rw [go]
+      refine ⟨fun ho => ?_, fun _ => by simp⟩
+      have : oth.filter p = [] := by simpa [List.filter_eq_nil_iff] using ho
+      simp [this]
+    | cons e rest =>
+      rw [go]
+      by_cases he : e ∈ ov
+      · have hc : ov.contains e = true := by simpa using he
+        have hpe : p e = false := hov e he
+        simp only [hc, if_true]
+        have hov' : ∀ x, x ∈ ov.filter (fun x => x != e) → p x = false :=
+          fun x hx => hov x (List.mem_filter.mp hx).1
+        obtain ⟨i1, i2⟩ := ih (oth.length + rest.length) (by simp at hn; omega) oth rest _ res rfl hov'
+        refine ⟨fun ho => ?_, fun hcur => ?_⟩
+        · rw [i2 ho]; simp [hpe]
+        · exact i1 (fun x hx => hcur x (List.mem_cons_of_mem _ hx))
+      · have hc : ov.contains e = false := by simpa using he
+        simp only [hc, Bool.false_eq_true, if_false]
+        obtain ⟨i1, i2⟩ := ih (rest.length + oth.length) (by simp at hn; omega) rest oth ov (res ++ [e]) rfl hov
+        refine ⟨fun ho => ?_, fun hcur => ?_⟩
+        · rw [i1 ho]; cases hp : p e <;> simp [hp]
+        · have hpe : p e = false := hcur e List.mem_cons_self
+          rw [i2 (fun x hx => hcur x (List.mem_cons_of_mem _ hx))]; simp [hpe]
+
+/-- **merge_order_left** ("maintaining ordering"): the elements only `a` has keep the relative
+order they have in `a` — for ALL lists, duplicates included -/
+theorem merge_order_left (a b : List α) :
+    (mergeListsWOrdering a b).filter (fun x => !b.contains x) = a.filter (fun x => !b.contains x) := by
+  have h := (go_filter (fun x => !b.contains x) _ a b (overlap a b) [] rfl
+    (by intro x hx; simp [overlap] at hx; simp [hx.2])).1 (by intro x hx; simp [hx])
+  simpa [mergeListsWOrdering] using h
+
+/-- **merge_order_right**: the elements only `b` has keep the relative order they have in `b` -/
+theorem merge_order_right (a b : List α) :
+    (mergeListsWOrdering a b).filter (fun x => !a.contains x) = b.filter (fun x => !a.contains x) := by
+  have h := (go_filter (fun x => !a.contains x) _ a b (overlap a b) [] rfl
+    (by intro x hx; simp [overlap] at hx; simp [hx.1])).2 (by intro x hx; simp [hx])
+  simpa [mergeListsWOrdering] using h
+
 
 /-- without the duplicate-free hypothesis an element can be emitted more often than it occurs in
 either list's de-duplicated union (the real function does the same) -/
